@@ -1,6 +1,6 @@
 SPECIFICATION Spec
 CONSTANTS
-  Modes = {"legacy", "legacy117", "modern"}
+  Versions = {754, 755, 756, 764, 765}
   PackNames = {"A", "C"}
   Statuses = {"accepted", "declined", "success", "discarded"}
   MaxLen = 4
